@@ -5,7 +5,9 @@
 //!           "files": [{"name": "0001.json", "raw": str | null,            // raw: written verbatim (unreadable file)
 //!                      "events": [{"level","message","version","task","pid","tid","op","ts"}]}],
 //!           "replies": ["ok"|"503"|"500"|"400"|"429"|"reset"|"close", ...],     // n-th telemetry POST gets replies[n]
-//!           "default_reply": "ok", "post_limit": N}
+//!           "default_reply": "ok", "post_limit": N,
+//!           "passes": 1,                                   // reader passes the case lasts
+//!           "publish_at_post": {"n": k, "from": "0002.tmp", "to": "0002.json"}}   // the event logger's rename, during the k-th POST
 //!   every text field is a recipe [[string, repeat], ...] (keeps scripts small for 64 KiB messages).
 //! The files are written with the repository's own `Event` type and `misc_helpers::json_write_to_file` (what
 //! `event_logger` does).  Mock hosts (std threads, this file) listen on the REAL endpoints 168.63.129.16:80 and
@@ -55,6 +57,8 @@ struct CaseState {
     token: Option<CancellationToken>,
     reason: String,
     started: Option<std::time::Instant>,
+    passes: u32,                              // reader passes the case lasts (default 1)
+    publish: Option<(usize, PathBuf, PathBuf)>, // at the n-th POST the writer's rename happens: (n, from, to)
 }
 
 static STATE: Lazy<Mutex<CaseState>> = Lazy::new(|| Mutex::new(CaseState::default()));
@@ -235,6 +239,12 @@ fn host_conn(host: &'static str, mut s: TcpStream) {
                 let mut st = STATE.lock().unwrap();
                 st.goalstate_gets += 1;
                 if st.goalstate_gets >= 2 {
+                    // a pass is over: a hand-over still pending is finished now at the latest
+                    if let Some((_, from, to)) = st.publish.take() {
+                        let _ = std::fs::rename(&from, &to);
+                    }
+                }
+                if st.goalstate_gets >= st.passes.max(1) + 1 {
                     if st.reason.is_empty() {
                         st.reason = "pass-complete".to_string();
                     }
@@ -269,6 +279,13 @@ fn host_conn(host: &'static str, mut s: TcpStream) {
                     let name = format!("{}_p{}.bin", st.id, k);
                     let _ = std::fs::write(st.out_dir.join(&name), &req.body);
                     file = json!(name);
+                }
+                if let Some((n, from, to)) = st.publish.clone() {
+                    if n == k {
+                        // the event logger (same process, same directory) finishes its hand-over now: <name>.tmp -> <name>.json
+                        let _ = std::fs::rename(&from, &to);
+                        st.publish = None;
+                    }
                 }
                 if k + 1 >= st.post_limit {
                     // more POSTs than any terminating reader could need: stop the experiment here
@@ -429,6 +446,14 @@ pub fn main() -> i32 {
             st.default_reply = case["default_reply"].as_str().unwrap_or("ok").to_string();
             st.post_limit = case["post_limit"].as_u64().unwrap_or(200) as usize;
             st.started = Some(std::time::Instant::now());
+            st.passes = case["passes"].as_u64().unwrap_or(1) as u32;
+            if let Some(pb) = case["publish_at_post"].as_object() {
+                st.publish = Some((
+                    pb["n"].as_u64().unwrap_or(0) as usize,
+                    events_dir.join(pb["from"].as_str().unwrap_or("x.tmp")),
+                    events_dir.join(pb["to"].as_str().unwrap_or("x.json")),
+                ));
+            }
         }
         let dir = events_dir.clone();
         let run = std::panic::catch_unwind(std::panic::AssertUnwindSafe(|| {
